@@ -36,7 +36,7 @@ P = {
  "C15": ("Theorems C15_prefix / C15_delivered_are_solutions (any limit oracle: delivered assignments are a prefix of the unlimited enumeration, hence genuine solutions), C15_solve_result / C15_minimize_result (Ok only for the unlimited answer, NoSolution only if nothing is yielded, otherwise Timeout/MemoryLimit — for arbitrary in-loop and post-loop test outcomes), C15_never_no_solution_when_satisfiable, C15_online_engine_is_fold. Tie: hook H6 forces the limit at the k-th engine check; every k is swept for small models through the real Model::solve/minimize/maximize/enumerate and compared with the model (event trace incl. stack pushes/pops, check counting, memory-estimate formula); deep models trip the real 1-2 MB memory estimate.",
          "Lean 4 proof (limited engine as a fold over the unlimited event trace; equivalence with the online engine by induction) with differential correspondence",
          "Wall-clock time is an abstract oracle; panics are observed by the harness (catch_unwind), not proved absent."),
- "C09": ("Certificate theory at exact rationals for all dimensions: C09_weak_duality, C09_legal_optimal_is_optimal (+ tolerance version), C09_standard_form_equiv (lower-bound shift and upper-bound slack rows), C09_optimal, C09_phase1_infeasible, C09_infeasible_vacuous (no return site carries LpStatus::Infeasible), dual/warm-start form: partial theorem + counterexamples. Tie: for every LP the harness prints data (bit patterns), status, x, objective and the returned basis; the Lean driver recomputes x_B and y from the basis by exact elimination and evaluates the verified checker; an independent exact vertex-enumeration oracle decides feasibility/optimality of the implementation's answer.",
+ "C09": ("Certificate theory at exact rationals for all dimensions: C09_weak_duality, C09_legal_optimal_is_optimal (+ tolerance version), C09_standard_form_equiv (lower-bound shift and upper-bound slack rows), C09_optimal, C09_phase1_infeasible, C09_infeasible_vacuous (no return site carries LpStatus::Infeasible), dual/warm-start form: partial theorem + counterexamples. Pivoting (Model/Simplex.lean): C09_pivot_keeps_feasible, C09_pivot_monotone, C09_stop_is_optimal (+ tolerance version), C09_unbounded_sound (exhibits the ray), C09_phase1_sound, C09_phase2_sound, C09_run_sound_slack; counterexamples C09_pivot_tolerance_counterexample (absolute pivot tolerance: finding lp-pivot-abs), C09_phase1_residue_counterexample. Tie: for every LP the harness prints data (bit patterns), status, x, objective and the returned basis; the Lean driver recomputes x_B and y from the basis by exact elimination and evaluates the verified checker; the sequence of bases visited by Phase I / Phase II (hook H10) is compared with the modelled pivoting rules on every run whose decision inputs were computed without rounding; an independent exact vertex-enumeration oracle decides feasibility/optimality of the implementation's answer.",
          "Lean 4 proof (LP duality / certificate checking over Rat) with per-run certificate validation and exact-arithmetic oracle",
          "The pivoting rules and LU factorisation are not modelled; legality of each terminal state is validated per run, not proved for all runs."),
  "C06": ("Theorems over exact rationals for the float/int linear propagators and float bound setters (Model/FloatCore.lean, generic in the number type so that the very same definitions run on f64 in the driver): C06_int_vars_exact (+ _view): integer variables in mixed rows keep exact integer domains; C06_float_kind_step_kept; C06_float_checking_tol: at a fixpoint without events every row holds up to |c_i|*max(3 step, 1e-5|bound|) + sum |c_j| width_j; kernel-checked counterexamples for the recorded findings (row over integer variables only is unchecked, the tolerance is necessary). Search level (Model/FloatEngine.lean: propagation loop over the float propagators, the float branching rule x <= mid / x >= mid, first-leaf search): fpropagate_fixpoint, C06_solve_within_tolerance (every returned assignment lies in the declared bounds, final widths below 1.5 step, integer variables integral, every FloatLinLe row within the tolerance). Tie: every float primitive, ctx.try_set_min/max float arms, FloatLin prune and whole fl.solve runs (verdict, propagation count, node count, value bit patterns) compared bit-for-bit; API-level witness stream (oracle on returned solutions: bounds, integrality, row residuals, var-var comparisons not ignored).",
